@@ -127,9 +127,15 @@ def run_case(mon, base, case, sh):
                 if case["missing"] not in rep["err"]:
                     sh.count("missing_id_error_without_name")
                 sh.nontrivial.add(("missing", len(case["deps"])))
-            return
+                # the caller packages the missing buildpack, completes the map and packages again into the same destination: judged below like a
+                # first run (the failed attempt has no part in it)
+                case = dict(case, map=dict(case["map"], **{case["missing"]: "/vp/packaged-late/" + case["missing"].replace("/", "_")}), missing=None, retried=True)
+                rep = mon.call({"op": "composite", "dir": given, "dest": dest, "map": [[k, v] for k, v in case["map"].items()]})
+                sh.count("retries_with_the_completed_map")
+            if case["missing"] is not None:
+                return
         if not rep["ok"]:
-            sh.violation("valid-rejected", "valid composite descriptor rejected: %s (deps %r)" % (rep["err"], case["deps"]), case)
+            sh.violation("valid-rejected", "valid composite descriptor rejected%s: %s (deps %r)" % (" (second run, with the completed map, after the run with a missing id was refused)" if case.get("retried") else "", rep["err"], case["deps"]), case)
             return
         raw = open(out_path, "rb").read()
         try:
@@ -182,6 +188,10 @@ def run_case(mon, base, case, sh):
             return
         if open(os.path.join(dest, "buildpack.toml")).read() != bptoml:
             sh.violation("buildpack-toml", "buildpack.toml was not copied byte-identically", case)
+            return
+        if sorted(os.listdir(dest)) != ["buildpack.toml", "package.toml"]:
+            sh.violation("destination-entries", "the destination holds %r after packaging%s (a packaged composite buildpack is its buildpack.toml and its package.toml)"
+                         % (sorted(os.listdir(dest)), " again with the completed map" if case.get("retried") else ""), case)
             return
         if len(case["deps"]) >= 2:
             shape = (tuple(sorted(set(case["kinds"]))), "climb" if any(d.startswith("../../..") for d in case["deps"]) else "",
